@@ -71,6 +71,21 @@ def run(ctx, model_ok):
             k = rng.randrange(len(evs) + 1)
             evs = evs[:k] + extra + evs[k:]
             cfg = {'filter_class': [], 'filter_subclass': [], 'filter_tid': b_tid}
+        if i % 5 == 3:
+            # directed: a kernel string of three records with a record of another class of the same thread between them; the
+            # request asks for the trace class only
+            c = sg.c
+            text = b'a-global-string-that-needs-three-records-to-be-announced-x'
+            chunks = [(0).to_bytes(8, 'little') + (2).to_bytes(8, 'little') + text[:16]] + \
+                     [text[k2:k2 + 32].ljust(32, b'\0') for k2 in range(16, len(text), 32)]
+            extra = []
+            for j2, ch in enumerate(chunks):
+                q = (1 if j2 == 0 else 0) | (2 if j2 == len(chunks) - 1 else 0)
+                extra.append([0x701, c['TRACE_STRING_GLOBAL'], q, [int.from_bytes(ch[8 * k3:8 * k3 + 8], 'little') for k3 in range(4)]])
+                extra.append([0x701, c['BSC_getpid'], rng.choice([0, 3]), [1, 2, 3, 4]])
+            k = rng.randrange(len(evs) + 1)
+            evs = evs[:k] + extra + evs[k:]
+            cfg = {'filter_class': [7], 'filter_subclass': [], 'filter_tid': None}
         if i % 5 in (0, 1):
             # directed: thread B's process is declared ONLY by a record of ANOTHER thread A (sampler thread data of the
             # sampler class, or a new-thread record of the trace class); B then makes syscalls; the request filters on B's
